@@ -132,6 +132,10 @@ pub fn child(ctx: &Ctx, rep: &mut Report) {
 }
 
 pub fn determinism(ctx: &Ctx, rep: &mut Report) {
+    if !crate::pool::keygen_responds::<F512>() {
+        rep.inconclusive("key generation did not return within 180 s (canary); reported as inconclusive, never as a violation".into());
+        return;
+    }
     let table: Mutex<HashMap<(String, [u8; 32]), Vec<(String, Fp)>>> = Mutex::new(HashMap::new());
     // (0) a larger pool, every seed generated twice by different worker threads; the seeds
     // whose key search took longest (most generator output, most rejected candidates) are then
@@ -249,6 +253,10 @@ fn bitflips_v<V: Fv>(base: [u8; 32], rep: &mut Report) {
 }
 
 pub fn bitflips(ctx: &Ctx, rep: &mut Report) {
+    if !crate::pool::keygen_responds::<F512>() {
+        rep.inconclusive("key generation did not return within 180 s (canary); reported as inconclusive, never as a violation".into());
+        return;
+    }
     for i in 0..ctx.sz(1, 4) {
         bitflips_v::<F512>(seed32(ctx.seed, &format!("c15-flip-{}", i)), rep);
     }
